@@ -80,6 +80,8 @@ class RadialClamp(ClampBase):
     ):
         position = np.array(position)
         initial_point = np.copy(position)
+        center = np.array(center)
+        normal = np.array(normal)
 
         if bounds is not None:
             clamp_bounds = [bounds]
